@@ -3881,10 +3881,17 @@ class BoutMesh(Mesh):
             # member
             chi.ylow = 2.0 * numpy.pi * self.zShift.ylow / self.ShiftAngle.centre
             # set to NaN in divertor leg regions where chi is not valid
+            # (the arrays include the y-boundary guard cells, the jyseps* indices do not)
+            if jyseps2_1 != jyseps1_2:
+                upper_myg = 2 * myg
+            else:
+                upper_myg = 0
             for c in [chi.centre, chi.xlow, chi.ylow]:
-                c[:, : jyseps1_1 + 1] = float("nan")
-                c[:, jyseps2_1 + 1 : jyseps1_2 + 1] = float("nan")
-                c[:, jyseps2_2 + 1 :] = float("nan")
+                c[:, : jyseps1_1 + 1 + myg] = float("nan")
+                c[:, jyseps2_1 + 1 + myg : jyseps1_2 + 1 + myg + upper_myg] = float(
+                    "nan"
+                )
+                c[:, jyseps2_2 + 1 + myg + upper_myg :] = float("nan")
             chi.attributes["bout_type"] = "Field2D"
             self.writeArray("chi", chi, f)
 
